@@ -635,6 +635,7 @@ func checkC18(c *Ctx) {
 
 	// ---- PANIC over the v2 scope
 	v2s, unresolved := v2Scope(t)
+	recursionRule(c, "RECURSION", v2s, "v2")
 	r.Counts["v2_scope_functions"] = len(v2s)
 	r.Counts["v2_scope_unresolved_dynamic_calls"] = len(unresolved)
 	d := &dischargeCtx{t: t, s2k: s2k, flows: map[*ssa.Function]map[*ssa.BasicBlock]lenState{}, initLen: map[*ssa.Function]lenState{}, bounded: boundedFields(t)}
